@@ -26,9 +26,9 @@ ASSUME = ["fmin finding a local minimiser is not decided", "numpy elementwise se
 def run(prog, rep):
     rep.explanation = EXPL
     rep.assumptions = ASSUME
-    estimator(prog, rep)
-    wlsq_error(prog, rep)
-    fit_lsq(prog, rep)
+    rep.part(estimator, prog, rep)
+    rep.part(wlsq_error, prog, rep)
+    rep.part(fit_lsq, prog, rep)
     rep.expect_min("C13.zeros", 2)
     rep.expect_min("C13.formula", 4)
     rep.expect_min("C13.norm", 1)
